@@ -285,7 +285,10 @@ func (s Set) matchVersion(v *Version, includePrerelease bool) bool {
 			// dev (it doesn't seem to matter which is which).
 			if !pre && (v.IsPrerelease() || v.isPyPIDev()) {
 				anyPre := span.min.IsPrerelease() || span.max.IsPrerelease()
-				anyDev := span.min.isPyPIDev() || span.max.isPyPIDev()
+				// The lower bound of <V and <=V is the minimum version, which
+				// happens to be a dev release; it stands for "no lower bound"
+				// and must not switch prerelease matching on.
+				anyDev := span.min.isPyPIDev() && !span.min.minSentinel || span.max.isPyPIDev()
 				if !(anyPre || anyDev) {
 					continue
 				}
